@@ -9,11 +9,15 @@ open TdModel.C01
 
 /-! ### Order of a sequence's entries in the log -/
 
-/-- Entries of sequence `k` appear in the log in increasing position. -/
-def KeySorted (log : List Entry) (k : Nat) : Prop :=
-  log.Pairwise (fun a b => a.seqKey = some k → b.seqKey = some k → a.pos < b.pos)
+/-- Order of two entries of one sequence: the later one is not below, and strictly above if it
+covers a position. -/
+def After (a b : Entry) : Prop := a.pos ≤ b.pos ∧ (1 ≤ b.count → a.pos < b.pos)
 
-theorem tiled_strict (es : List Entry) : ∀ c, tiled c es = true → es.Pairwise (fun a b => a.pos < b.pos) := by
+/-- Entries of sequence `k` appear in the log in (weakly) increasing position. -/
+def KeySorted (log : List Entry) (k : Nat) : Prop :=
+  log.Pairwise (fun a b => a.seqKey = some k → b.seqKey = some k → After a b)
+
+theorem tiled_strict (es : List Entry) : ∀ c, tiled c es = true → es.Pairwise After := by
   induction es with
   | nil => intro c _; exact List.Pairwise.nil
   | cons a as ih =>
@@ -23,10 +27,10 @@ theorem tiled_strict (es : List Entry) : ∀ c, tiled c es = true → es.Pairwis
     refine List.Pairwise.cons ?_ (ih a.pos h'.2)
     intro b hb
     have := tiled_lower as a.pos h'.2 b hb
-    omega
+    exact ⟨by omega, fun h1 => by omega⟩
 
 theorem keySorted_of_filter (log : List Entry) (k : Nat)
-    (h : (seqLog log k).Pairwise (fun a b => a.pos < b.pos)) : KeySorted log k := by
+    (h : (seqLog log k).Pairwise After) : KeySorted log k := by
   unfold KeySorted
   induction log with
   | nil => exact List.Pairwise.nil
@@ -136,10 +140,10 @@ theorem part_covers (log : List Entry) (k : Nat) (hs : KeySorted log k) (m n : N
     (part : List Entry)
     (hpart : part = (log.take m).filter C ∨ part = ((log.take m).filter C).take n)
     (f : Entry) (hf : f ∈ part) (hfk : f.seqKey = some k)
-    (e : Entry) (he : e ∈ log) (hek : e.seqKey = some k) (her : r < e.pos) (hle : e.pos ≤ f.pos) :
+    (e : Entry) (he : e ∈ log) (hek : e.seqKey = some k) (hec : 1 ≤ e.count) (her : r < e.pos) (hle : e.pos ≤ f.pos) :
     e ∈ part := by
-  have hnr : ¬ (f.seqKey = some k → e.seqKey = some k → f.pos < e.pos) := by
-    intro h; have := h hfk hek; omega
+  have hnr : ¬ (f.seqKey = some k → e.seqKey = some k → After f e) := by
+    intro h; have := (h hfk hek).2 hec; omega
   have hfc : f ∈ (log.take m).filter C := by
     rcases hpart with h | h
     · rw [h] at hf; exact hf
@@ -150,7 +154,7 @@ theorem part_covers (log : List Entry) (k : Nat) (hs : KeySorted log k) (m n : N
   rcases hpart with h | h
   · rw [h]; exact hec
   · rw [h]
-    have hsc : ((log.take m).filter C).Pairwise (fun a b => a.seqKey = some k → b.seqKey = some k → a.pos < b.pos) :=
+    have hsc : ((log.take m).filter C).Pairwise (fun a b => a.seqKey = some k → b.seqKey = some k → After a b) :=
       (hs.sublist (List.take_sublist m log)).sublist List.filter_sublist
     rw [h] at hf
     exact mem_take_of_not_after _ _ n hsc f e hf hec hnr
@@ -158,9 +162,9 @@ theorem part_covers (log : List Entry) (k : Nat) (hs : KeySorted log k) (m n : N
 /-- An entry of `k` at or below the position of a happened entry of `k` has happened. -/
 theorem happened_of_le (log : List Entry) (k : Nat) (hs : KeySorted log k) (m : Nat)
     (g : Entry) (hg : g ∈ log.take m) (hgk : g.seqKey = some k)
-    (e : Entry) (he : e ∈ log) (hek : e.seqKey = some k) (hle : e.pos ≤ g.pos) : e ∈ log.take m := by
+    (e : Entry) (he : e ∈ log) (hek : e.seqKey = some k) (hec : 1 ≤ e.count) (hle : e.pos ≤ g.pos) : e ∈ log.take m := by
   apply mem_take_of_not_after _ log m hs g e hg he
-  intro h; have := h hgk hek; omega
+  intro h; have := (h hgk hek).2 hec; omega
 
 /-! ### The common difference -/
 
@@ -218,7 +222,7 @@ theorem beq_some_iff (e : Entry) (k : Nat) : (e.seqKey == some k) = true ↔ e.s
 /-- Every entry of sequence `k ∈ {pts, qts}` with position in `(requested, answered]` is in the
 part of the log the answer was built from. -/
 theorem commonDiff_part_mem (w : World) (k : Nat) (hk : k = 0 ∨ k = 1) (hs : KeySorted w.log k)
-    (org : Int) (horg : ∀ e ∈ w.log, e.seqKey = some k → org < e.pos)
+    (org : Int) (horg : ∀ e ∈ w.log, e.seqKey = some k → org ≤ e.pos - e.count)
     (pts qts : Int) (slice : Bool) (x : Int)
     (part : List Entry)
     (hpart : part = (cut w.slice (w.happened.filter fun e : Entry =>
@@ -228,7 +232,8 @@ theorem commonDiff_part_mem (w : World) (k : Nat) (hk : k = 0 ∨ k = 1) (hs : K
     (r : Int) (hr : r = if k = 0 then pts else qts)
     (hx : x = if slice then lastPos r (fun e => e.seqKey == some k) part
               else max (lastPos r (fun e => e.seqKey == some k) part) (lastPos org (fun e => e.seqKey == some k) w.happened))
-    (e : Entry) (he : e ∈ w.log) (hek : e.seqKey = some k) (her : r < e.pos) (hle : e.pos ≤ x) : e ∈ part := by
+    (e : Entry) (he : e ∈ w.log) (hek : e.seqKey = some k) (hec : 1 ≤ e.count) (her : r < e.pos) (hle : e.pos ≤ x) :
+    e ∈ part := by
   let C := fun e : Entry => (e.seqKey == some 0 && decide (e.pos > pts)) || (e.seqKey == some 1 && decide (e.pos > qts))
   have hC : ∀ e : Entry, e.seqKey = some k → (C e = true ↔ r < e.pos) := by
     intro e hek
@@ -238,7 +243,7 @@ theorem commonDiff_part_mem (w : World) (k : Nat) (hk : k = 0 ∨ k = 1) (hs : K
   have hpp : part = (w.log.take w.emitted).filter C ∨ part = ((w.log.take w.emitted).filter C).take w.slice := by
     rw [hpart]; exact cut_prefix _ _
   have cover : ∀ f ∈ part, f.seqKey = some k → e.pos ≤ f.pos → e ∈ part := fun f hf hfk hle' =>
-    part_covers w.log k hs w.emitted w.slice C r hC part hpp f hf hfk e he hek her hle'
+    part_covers w.log k hs w.emitted w.slice C r hC part hpp f hf hfk e he hek hec her hle'
   have fromLast : e.pos ≤ lastPos r (fun e => e.seqKey == some k) part → e ∈ part := by
     intro hl
     rcases lastPos_cases r (fun e => e.seqKey == some k) part with h | ⟨f, hf, hP, hpos⟩
@@ -257,25 +262,32 @@ theorem commonDiff_part_mem (w : World) (k : Nat) (hk : k = 0 ∨ k = 1) (hs : K
       · rw [h] at h2; have := horg e he hek; omega
       · have hgk := (beq_some_iff g k).1 hP
         have heH : e ∈ w.log.take w.emitted :=
-          happened_of_le w.log k hs w.emitted g hg hgk e he hek (by rw [hpos]; exact h2)
+          happened_of_le w.log k hs w.emitted g hg hgk e he hek hec (by rw [hpos]; exact h2)
         rw [hall]
         exact List.mem_filter.2 ⟨heH, (hC e hek).2 her⟩
 
 /-- **The common difference is honest for pts**: what it carries for the pts sequence contains every
 non-marker pts entry in `(requested, p]`, and only log entries of that sequence. -/
 theorem commonDiff_honest_pts (w : World) (hs : KeySorted w.log 0)
-    (horg : ∀ e ∈ w.log, e.seqKey = some 0 → w.p0 < e.pos)
+    (horg : ∀ e ∈ w.log, e.seqKey = some 0 → w.p0 ≤ e.pos - e.count)
+    (hcnt : ∀ e ∈ w.log, e.seqKey = some 0 → 0 ≤ e.count)
     (pts qts : Int) (msgs enc others : List Entry) (p q : Int) (slice : Bool)
     (h : (w.commonDiff pts qts).2 = .diff msgs enc others p q slice) :
     (∀ e ∈ seqLog w.log 0, pts < e.pos → e.pos ≤ p →
-      mkOf w.log e.id = true ∨ e ∈ (msgs ++ others.filter ownCommon).filter (·.seqKey == some 0)) ∧
+      exempt (mkOf w.log) e = true ∨ e ∈ (msgs ++ others.filter ownCommon).filter (·.seqKey == some 0)) ∧
     (∀ e ∈ (msgs ++ others.filter ownCommon).filter (·.seqKey == some 0), e ∈ seqLog w.log 0) := by
   obtain ⟨_, hm, _, ho, hsl, hp, _⟩ := commonDiff_diff w pts qts msgs enc others p q slice h
   constructor
   · intro e he her hle
     rw [mem_seqLog] at he
+    by_cases hz : e.count = 0
+    · exact Or.inl (exempt_of_zero _ e hz)
+    have hec : 1 ≤ e.count := by
+      have := horg e he.1 he.2
+      have hcn := hcnt e he.1 he.2
+      omega
     have hin := commonDiff_part_mem w 0 (Or.inl rfl) hs w.p0 horg pts qts slice p _ rfl hsl pts rfl
-      (by simpa [World.serverPts] using hp) e he.1 he.2 her hle
+      (by simpa [World.serverPts] using hp) e he.1 he.2 hec her hle
     rcases seqKey0_kinds e he.2 with hk | hk | hk
     · right
       refine List.mem_filter.2 ⟨List.mem_append_left _ ?_, by simp [he.2]⟩
@@ -283,7 +295,7 @@ theorem commonDiff_honest_pts (w : World) (hs : KeySorted w.log 0)
     · right
       refine List.mem_filter.2 ⟨List.mem_append_right _ (List.mem_filter.2 ⟨?_, by simp [ownCommon, hk]⟩), by simp [he.2]⟩
       rw [ho]; exact List.mem_filter.2 ⟨hin, by simp [hk]⟩
-    · left; exact mkOf_marker w.log e he.1 (by simp [Entry.isMarker, hk])
+    · left; exact exempt_of_mk _ e (mkOf_marker w.log e he.1 (by simp [Entry.isMarker, hk]))
   · intro e he
     obtain ⟨hmem, hk⟩ := List.mem_filter.1 he
     rw [mem_seqLog]
@@ -297,18 +309,24 @@ theorem commonDiff_honest_pts (w : World) (hs : KeySorted w.log 0)
 
 /-- … and for qts. -/
 theorem commonDiff_honest_qts (w : World) (hs : KeySorted w.log 1)
-    (horg : ∀ e ∈ w.log, e.seqKey = some 1 → w.q0 < e.pos)
+    (horg : ∀ e ∈ w.log, e.seqKey = some 1 → w.q0 ≤ e.pos - e.count)
+    (hcnt : ∀ e ∈ w.log, e.seqKey = some 1 → 0 ≤ e.count)
     (pts qts : Int) (msgs enc others : List Entry) (p q : Int) (slice : Bool)
     (h : (w.commonDiff pts qts).2 = .diff msgs enc others p q slice) :
     (∀ e ∈ seqLog w.log 1, qts < e.pos → e.pos ≤ q →
-      mkOf w.log e.id = true ∨ e ∈ (enc ++ others.filter ownCommon).filter (·.seqKey == some 1)) ∧
+      exempt (mkOf w.log) e = true ∨ e ∈ (enc ++ others.filter ownCommon).filter (·.seqKey == some 1)) ∧
     (∀ e ∈ (enc ++ others.filter ownCommon).filter (·.seqKey == some 1), e ∈ seqLog w.log 1) := by
   obtain ⟨_, _, hen, ho, hsl, _, hq⟩ := commonDiff_diff w pts qts msgs enc others p q slice h
   constructor
   · intro e he her hle
     rw [mem_seqLog] at he
+    by_cases hz : e.count = 0
+    · exact Or.inl (exempt_of_zero _ e hz)
+    have hec : 1 ≤ e.count := by
+      have hcn := hcnt e he.1 he.2
+      omega
     have hin := commonDiff_part_mem w 1 (Or.inr rfl) hs w.q0 horg pts qts slice q _ rfl hsl qts rfl
-      (by simpa [World.serverQts] using hq) e he.1 he.2 her hle
+      (by simpa [World.serverQts] using hq) e he.1 he.2 hec her hle
     rcases seqKey1_kinds e he.2 with hk | hk
     · right
       refine List.mem_filter.2 ⟨List.mem_append_left _ ?_, by simp [he.2]⟩
@@ -366,11 +384,12 @@ theorem chanDiff_cases (w : World) (c : Nat) (pts : Int) :
     · right; rfl
 
 /-- **The channel difference is honest.** -/
-theorem chanDiff_honest (w : World) (c : Nat) (hs : KeySorted w.log (2 + c)) (pts : Int) :
+theorem chanDiff_honest (w : World) (c : Nat) (hs : KeySorted w.log (2 + c))
+    (hcnt : ∀ e ∈ w.log, e.seqKey = some (2 + c) → 0 ≤ e.count) (pts : Int) :
     let cand := w.happened.filter fun e : Entry => e.seqKey == some (2 + c) && decide (e.pos > pts)
     let part := (cut w.chSlice cand).1
     (∀ e ∈ seqLog w.log (2 + c), pts < e.pos → e.pos ≤ lastPos pts (fun _ => true) part →
-      mkOf w.log e.id = true ∨ e ∈ part.filter (·.kind == .chmsg) ++ part.filter (·.kind == .chother)) ∧
+      exempt (mkOf w.log) e = true ∨ e ∈ part.filter (·.kind == .chmsg) ++ part.filter (·.kind == .chother)) ∧
     (∀ e ∈ part.filter (·.kind == .chmsg) ++ part.filter (·.kind == .chother), e ∈ seqLog w.log (2 + c)) := by
   intro cand part
   have hpk : ∀ x ∈ part, x ∈ w.log ∧ x.seqKey = some (2 + c) := by
@@ -385,27 +404,33 @@ theorem chanDiff_honest (w : World) (c : Nat) (hs : KeySorted w.log (2 + c)) (pt
     have hC : ∀ e : Entry, e.seqKey = some (2 + c) →
         ((fun e : Entry => e.seqKey == some (2 + c) && decide (e.pos > pts)) e = true ↔ pts < e.pos) := by
       intro e hek; simp [hek]
+    by_cases hz : e.count = 0
+    · exact Or.inl (exempt_of_zero _ e hz)
+    have hec : 1 ≤ e.count := by
+      have hcn := hcnt e he.1 he.2
+      omega
     have hin : e ∈ part := by
       rcases lastPos_cases pts (fun _ => true) part with h | ⟨f, hf, _, hpos⟩
       · rw [h] at hle; omega
       · exact part_covers w.log (2 + c) hs w.emitted w.chSlice _ pts hC part (cut_prefix _ _) f hf (hpk f hf).2
-          e he.1 he.2 her (by rw [hpos]; exact hle)
+          e he.1 he.2 hec her (by rw [hpos]; exact hle)
     rcases (seqKeyCh_kinds e c he.2).2 with hk | hk | hk
     · right; exact List.mem_append_left _ (List.mem_filter.2 ⟨hin, by simp [hk]⟩)
     · right; exact List.mem_append_right _ (List.mem_filter.2 ⟨hin, by simp [hk]⟩)
-    · left; exact mkOf_marker w.log e he.1 (by simp [Entry.isMarker, hk])
+    · left; exact exempt_of_mk _ e (mkOf_marker w.log e he.1 (by simp [Entry.isMarker, hk]))
   · intro e he
     rw [mem_seqLog]
     rcases List.mem_append.1 he with h | h
     · exact hpk e (List.mem_filter.1 h).1
     · exact hpk e (List.mem_filter.1 h).1
 
-/-- When the channel oracle answers `empty`, nothing of the channel lies in `(requested, answered]`. -/
+/-- When the channel oracle answers `empty`, nothing position-covering of the channel lies in
+`(requested, answered]`. -/
 theorem chanDiff_empty_honest (w : World) (c : Nat) (hs : KeySorted w.log (2 + c))
-    (horg : ∀ e ∈ w.log, e.seqKey = some (2 + c) → w.chanInit c < e.pos) (pts : Int)
+    (horg : ∀ e ∈ w.log, e.seqKey = some (2 + c) → w.chanInit c ≤ e.pos - e.count) (pts : Int)
     (hc : (w.happened.filter fun e : Entry => e.seqKey == some (2 + c) && decide (e.pos > pts)) = []) :
-    ∀ e ∈ seqLog w.log (2 + c), ¬ (pts < e.pos ∧ e.pos ≤ max pts (w.serverChan c)) := by
-  intro e he ⟨her, hle⟩
+    ∀ e ∈ seqLog w.log (2 + c), 1 ≤ e.count → ¬ (pts < e.pos ∧ e.pos ≤ max pts (w.serverChan c)) := by
+  intro e he hec ⟨her, hle⟩
   rw [mem_seqLog] at he
   have h2 : e.pos ≤ w.serverChan c := by omega
   unfold World.serverChan at h2
@@ -413,7 +438,7 @@ theorem chanDiff_empty_honest (w : World) (c : Nat) (hs : KeySorted w.log (2 + c
   · rw [h] at h2; have := horg e he.1 he.2; omega
   · have hgk := (beq_some_iff g (2 + c)).1 hP
     have heH : e ∈ w.log.take w.emitted :=
-      happened_of_le w.log (2 + c) hs w.emitted g hg hgk e he.1 he.2 (by rw [hpos]; exact h2)
+      happened_of_le w.log (2 + c) hs w.emitted g hg hgk e he.1 he.2 hec (by rw [hpos]; exact h2)
     have : e ∈ (w.happened.filter fun e : Entry => e.seqKey == some (2 + c) && decide (e.pos > pts)) :=
       List.mem_filter.2 ⟨heH, by simp [he.2, her]⟩
     rw [hc] at this; simp at this
